@@ -105,3 +105,105 @@ Proof.
     exists wcur, (R 1 0 4194304 1 100 200 [O 1 1000; O 2 500; O 3 0] [O 1 1000; O 2 400; O 0 100] 1 6), 0, 0.
     split; [reflexivity|cbn; lia].
 Qed.
+
+(** * the patch is conservative: same verdict and values, panics become errors *)
+
+Lemma cadd_ok_iff : forall a b s, cadd a b = Ok s <-> cadd_o a b = (s, false).
+Proof.
+  intros a b s. unfold cadd, cadd_o. destruct (a + b <? two128) eqn:C.
+  - assert (Hm : (a + b) mod two128 = a + b) by (apply N.mod_small; lia).
+    assert (Hl : (two128 <=? a + b) = false) by lia. rewrite Hm, Hl.
+    split; intros H; inversion H; reflexivity.
+  - assert (Hl : (two128 <=? a + b) = true) by lia. rewrite Hl. split; intros H; discriminate.
+Qed.
+
+Lemma sum_p_ok_iff : forall l acc s, sum_p acc l = Ok s <-> sum_o acc l = Ok s.
+Proof.
+  induction l as [|o l IH]; intros acc s; cbn [sum_p sum_o]; [reflexivity|].
+  destruct (cadd acc (oval o)) as [s'| |] eqn:E; cbn [bind].
+  - apply cadd_ok_iff in E. rewrite E. apply IH.
+  - unfold cadd in E. destruct (acc + oval o <? two128); discriminate.
+  - destruct (cadd_o acc (oval o)) as [s' ov] eqn:E'. destruct ov.
+    + unfold bad. split; discriminate.
+    + apply cadd_ok_iff in E'. congruence.
+Qed.
+
+Lemma addr_sum_p_ok_iff : forall revs curs acc s, addr_sum_p acc revs curs = Ok s <-> addr_sum acc revs curs = Ok s.
+Proof.
+  induction revs as [|r revs IH]; intros [|c curs] acc s; cbn [addr_sum_p addr_sum]; try reflexivity.
+  destruct (negb (oaddr r =? oaddr c)); [reflexivity|].
+  destruct (cadd acc (oval r)) as [s'| |] eqn:E; cbn [bind].
+  - apply cadd_ok_iff in E. rewrite E. apply IH.
+  - unfold cadd in E. destruct (acc + oval r <? two128); discriminate.
+  - destruct (cadd_o acc (oval r)) as [s' ov] eqn:E'. destruct ov.
+    + unfold bad. split; discriminate.
+    + apply cadd_ok_iff in E'. congruence.
+Qed.
+
+Ltac bnd H :=
+  match type of H with
+  | bind ?r _ = Ok _ => let E := fresh "B" in destruct r eqn:E; cbn [bind] in H; [|discriminate H|discriminate H]
+  end.
+
+Lemma legacy_std_ok_patched : forall cur rv,
+  (2 <= length (rvalid cur))%nat -> (2 <= length (rmissed cur))%nat ->
+  validate_std cur rv = Ok tt -> Model.validate_std cur rv = Ok tt.
+Proof.
+  intros cur rv L1 L2 H. unfold validate_std, bad in H.
+  bnd H. bnd H. bnd H.
+  step H. step H. step H. step H. step H. step H. step H. step H. step H.
+  bnd H. bnd H. step H. bnd H. bnd H. step H. step H.
+  apply sum_p_ok_iff in B. apply addr_sum_p_ok_iff in B0. apply addr_sum_p_ok_iff in B1.
+  unfold Model.validate_std, bad.
+  rewrite C6, C7.
+  replace (length (rvalid cur) <? 2)%nat with false by lia.
+  replace (length (rmissed cur) <? 2)%nat with false by lia.
+  rewrite B, B0, B1; cbn [bind].
+  rewrite C, C0, C1, C2, C3, C4, C5.
+  rewrite B2, B3, B4, B5; cbn [bind]. rewrite C8, C9, C10. reflexivity.
+Qed.
+
+Lemma patched_std_ok_legacy : forall cur rv,
+  Model.validate_std cur rv = Ok tt -> validate_std cur rv = Ok tt.
+Proof.
+  intros cur rv H. unfold Model.validate_std, bad in H.
+  step H. step H. step H. step H.
+  bnd H. bnd H. bnd H.
+  step H. step H. step H. step H. step H. step H. step H.
+  bnd H. bnd H. step H. bnd H. bnd H. step H. step H.
+  apply sum_p_ok_iff in B. apply addr_sum_p_ok_iff in B0. apply addr_sum_p_ok_iff in B1.
+  unfold validate_std, bad.
+  rewrite B, B0, B1; cbn [bind].
+  rewrite C3, C4, C5, C6, C7, C8, C9, C, C0.
+  rewrite B2, B3, B4, B5; cbn [bind]. rewrite C10, C11, C12. reflexivity.
+Qed.
+
+(* ValidateRevision, whatever the shapes: the patched function accepts exactly what the old one
+   accepted, with the same returned values (and never panics: validate_revision_no_panic) *)
+Lemma validate_revision_conservative : forall cur rv p k x,
+  validate_revision cur rv p k = Ok x <-> Model.validate_revision cur rv p k = Ok x.
+Proof.
+  intros cur rv p k x. split; intros EL.
+  - unfold validate_revision in EL.
+    destruct (validate_std cur rv) as [[]| |] eqn:Es; cbn [bind] in EL; try discriminate.
+    assert (L : (2 <= length (rvalid cur))%nat /\ (2 <= length (rmissed cur))%nat).
+    { unfold bad in EL.
+      destruct (valid_renter cur) as [a1| |] eqn:A1; cbn [bind] in EL; try discriminate.
+      destruct (a1 <? p); [discriminate|].
+      destruct (missed_renter cur) as [a2| |] eqn:A2; cbn [bind] in EL; try discriminate.
+      destruct (a2 <? p); [discriminate|].
+      destruct (missed_host cur) as [a3| |] eqn:A3; cbn [bind] in EL; try discriminate.
+      destruct (a3 <? k); [discriminate|].
+      destruct (valid_renter rv) as [a5| |] eqn:A5; cbn [bind] in EL; try discriminate.
+      destruct (csub_u a1 a5) as [? []]; [discriminate|].
+      destruct (valid_host rv) as [a6| |] eqn:A6; cbn [bind] in EL; try discriminate.
+      destruct (valid_host cur) as [a7| |] eqn:A7; cbn [bind] in EL; try discriminate.
+      apply acc_ok in A3 as [_ ?]. apply acc_ok in A7 as [_ ?]. lia. }
+    destruct L as [L1 L2].
+    apply legacy_std_ok_patched in Es; try assumption.
+    unfold Model.validate_revision. rewrite Es; cbn [bind]. exact EL.
+  - unfold Model.validate_revision in EL.
+    destruct (Model.validate_std cur rv) as [[]| |] eqn:Es; cbn [bind] in EL; try discriminate.
+    apply patched_std_ok_legacy in Es.
+    unfold validate_revision. rewrite Es; cbn [bind]. exact EL.
+Qed.
